@@ -613,6 +613,8 @@ class Interp:
             return Frm(t.sp) if isinstance(t, Frm) else TOP
         if fn in ("Paint.from_ot",) and c.args:
             return self.ev(c.args[0], env)
+        if fn in ("cast", "typing.cast") and len(c.args) == 2:
+            return self.ev(c.args[1], env)
         if fn in ("SVGPath",):
             d = None
             for k in c.keywords:
